@@ -86,6 +86,13 @@ def cases(tier, seed):
                             yield {"k": "conv", "skind": "cas", "files": fset, "tkind": tkind, "sel": [fset[0]], "mode": mode, "absent": False, "nulpad": True}
                         for chunk in (128, 7):
                             yield {"k": "conv", "skind": "cas", "files": fset, "tkind": tkind, "sel": None, "mode": None, "absent": False, "chunk": chunk}
+            if fset:
+                # several outputs asked for in one run: each is what it would have been when asked for alone
+                # (--list is not combined: it prints and ends the run by design)
+                for outs in [["cas", "dsk"]] + ([["bin", "cas"], ["bin", "dsk"], ["bin", "cas", "dsk"]] if len(fset) == 1 else []):
+                    yield {"k": "multi", "skind": skind, "files": fset, "outs": outs, "sel": None}
+                    if len(fset) > 1:
+                        yield {"k": "multi", "skind": skind, "files": fset, "outs": outs, "sel": [fset[-1]]}
             if len(fset) in (1, 2):
                 yield {"k": "bin", "skind": skind, "files": fset, "sel": None}
                 yield {"k": "bin", "skind": skind, "files": fset, "sel": [fset[0]]}
@@ -154,6 +161,8 @@ def check_case(case):
         cell = "conv|{}{}>{}|{}|sel={}|{}".format(case["skind"], ".gaps" if case.get("gaps") else ".holes" if case.get("holes") else ".chunk{}".format(case["chunk"]) if case.get("chunk") else ".nulpad" if case.get("nulpad") else "", case["tkind"], names, sel, case["mode"] or "-")
     elif case["k"] == "chain":
         cell = "chain|{}|{}".format(case["skind"], names)
+    elif case["k"] == "multi":
+        cell = "multi|{}>{}|{}|{}".format(case["skind"], "+".join(case["outs"]), names, "all" if case["sel"] is None else "sel")
     else:
         cell = "bin|{}|{}|{}".format(case["skind"], names, "all" if case["sel"] is None else "sel")
 
@@ -187,6 +196,30 @@ def check_case(case):
                         bad(*d)
                 except (tape.TapeError, dskfs.FsError) as e:
                     bad("target image malformed", "well-formed", str(e))
+        elif case["k"] == "multi":
+            want = specs if case["sel"] is None else [x for x in specs if x["name"].upper() in {FILES[i]["name"].upper() for i in case["sel"]}]
+            files_arg = None if case["sel"] is None else [FILES[i]["name"].lower() for i in case["sel"]]
+            kw = {"to_" + o: "tgt." + o for o in case["outs"] if o != "list"}
+            status, out = cli.file_util(src, files=files_arg, list_="list" in case["outs"], **kw)
+            if isinstance(status, str) or status != 0:
+                bad("run with several outputs failed: {}".format(str(status).split()[0]), "exit 0", "{} {}".format(status, out[-120:]))
+            else:
+                for o in case["outs"]:
+                    if o == "list":
+                        if out.count("-- File #") < len(want if case["sel"] is not None else specs):
+                            bad("--list prints fewer files when other outputs are asked for too", len(specs), out.count("-- File #"))
+                    elif not os.path.exists("tgt." + o):
+                        bad("no --to_{} target written when other outputs are asked for too".format(o), "tgt." + o, out[-100:])
+                    elif o == "bin":
+                        if open("tgt.bin", "rb").read() != C.pattern(want[0]["n"], want[0]["pat"]):
+                            bad("--to_bin data differs when other outputs are asked for too", "{} bytes".format(want[0]["n"]), "{} bytes".format(os.path.getsize("tgt.bin")))
+                    else:
+                        try:
+                            d = compare(want, read_image("tgt." + o, o), case["skind"], o)
+                            if d:
+                                bad("--to_{} with other outputs in the same run: {}".format(o, d[0]), d[1], d[2])
+                        except (tape.TapeError, dskfs.FsError) as e:
+                            bad("--to_{} target malformed when other outputs are asked for too".format(o), "well-formed", str(e))
         elif case["k"] == "chain":
             a, b = ("dsk", "cas") if case["skind"] == "cas" else ("cas", "dsk")
             s1, o1 = cli.file_util(src, **{"to_" + a: "mid." + a})
